@@ -1,10 +1,7 @@
 //! vf-store: checks of the object-store wrappers (C07, C08, C09).
-mod c07;
-mod c08;
-mod c09;
-mod common;
 
 use vf_core::Runner;
+use vf_store::*;
 
 fn main() {
     let prop = std::env::args().nth(1).unwrap_or_default();
